@@ -551,6 +551,22 @@ def inject_exec_overlay(scratch):
         fh.write("\n#[cfg(any(kani, verif_replay))]\n#[path = \"server/verif_overlay_exec.rs\"]\nmod verif_overlay_exec;\n")
 
 
+def inject_dispatch_overlay(scratch):
+    """EXPERIMENT (not registered, see experiments/README.md).  Client dispatch (write side): harness as a child module of `client`; the client in-flight
+    table runs over the models (as for the table harnesses); under cfg(kani) only, tokio's mpsc in
+    client.rs (request queue) and cancellations.rs is the waker-less array model."""
+    tsrc = os.path.join(scratch.repo, "tarpc", "src")
+    if "verif_overlay_cift" not in open(os.path.join(tsrc, "client", "in_flight_requests.rs")).read():
+        inject_client_table_overlay(scratch)
+    shutil.copy(os.path.join(VERIF, "experiments", "tarpc_overlay_disp.rs"), os.path.join(tsrc, "client", "verif_overlay_disp.rs"))
+    _swap(os.path.join(tsrc, "client.rs"), [("use tokio::sync::{mpsc, oneshot};", "use tokio::sync::oneshot;\n#[cfg(not(kani))]\nuse tokio::sync::mpsc;\n#[cfg(kani)]\nuse crate::verif_env::mpsc;")])
+    cf = os.path.join(tsrc, "cancellations.rs")
+    if "crate::verif_env::mpsc" not in open(cf).read():
+        _swap(cf, [("use tokio::sync::mpsc;", "#[cfg(not(kani))]\nuse tokio::sync::mpsc;\n#[cfg(kani)]\nuse crate::verif_env::mpsc;")])
+    with open(os.path.join(tsrc, "client.rs"), "a") as fh:
+        fh.write("\n#[cfg(any(kani, verif_replay))]\n#[path = \"client/verif_overlay_disp.rs\"]\nmod verif_overlay_disp;\n")
+
+
 def inject_server_channel_overlay(scratch):
     """BaseChannel: server table swaps + tokio mpsc model in cancellations.rs + harness as a child of `server`."""
     inject_server_table_overlay(scratch)
